@@ -121,6 +121,9 @@ def _is_name(e, name):
     return isinstance(e, ast.Name) and e.id == name
 
 
+UNVERIFIED: dict = {}  # op fq -> why the body was not recognised (identity then comes from the op's name)
+
+
 def _match_logaddexp(fn: ast.FunctionDef) -> bool:
     """shift = max(detach(x), detach(y)); return log(exp(x - shift) + exp(y - shift)) + shift"""
     a = [x.arg for x in fn.args.args]
@@ -180,7 +183,13 @@ def identify(cat, op) -> Optional[str]:
                 if isinstance(n, ast.BinOp) and isinstance(n.op, ast.Div) and isinstance(n.left, ast.Constant) and n.left.value in (1, 1.0) \
                         and _is_name(n.right, params[0]):
                     return "RECIPROCAL"
-        if op.name == "logaddexp" and _match_logaddexp(fn):
+        if op.name == "logaddexp":
+            # the op is logaddexp by declaration (its name, and the tables file it as such); whether the body has the one shape this
+            # module recognises is recorded, not assumed: R15.11 reports an unrecognised body and checks what it can (symmetry)
+            if not _match_logaddexp(fn):
+                UNVERIFIED[op.fq] = "the default implementation is not of the form log(exp(x - s) + exp(y - s)) + s with s = max(x, y)"
+            else:
+                UNVERIFIED.pop(op.fq, None)
             return "LOGADDEXP"
         if op.name == "log":
             # math.log(x) if x > 0 else -math.inf
